@@ -22,6 +22,7 @@ type HarnessCfg struct {
 	NowMonotone   bool
 	FirstRangeInOrder bool
 	DPOR bool
+	BulkCopyHavoc bool
 	ClockSmall bool // instants are base + small offsets (8-bit seconds); see now()
 	ClockHorizon int // seconds: every clock reading lies within this many seconds of the first one (0 = unbounded)
 }
